@@ -300,6 +300,10 @@ impl Scanner {
             if self.ch == '"' || self.ch == '\0' {
                 break;
             }
+            // a string literal may span lines
+            if self.ch == '\n' {
+                self.line += 1;
+            }
         }
         let the_str: String = self.input[position..self.position].iter().collect();
         if self.ch == '"' {
